@@ -10,7 +10,7 @@ RULE = ('C19 runs on spied, instrumented HsmWithQueues and ActiveObject charts: 
         'to the 500-record ring (long runs cross it); clear_trace() calls by the client in between restart the expected list; a share of the active objects subscribe and / or publish BEFORE start_at, so that their first steps handle the SUBSCRIBE / PUBLISH meta event (no transition: no record). Every tenth case steps an instrumented active object through transitions, hooks and ignored events while another thread registers new signal names (detsched, opcode-level yield points in the signal classification of miros/event.py): exactly one record per transition. distinct_nontrivial = distinct (host, transitions, non-transitions) per run')
 CASES = {'quick': 2500, 'thorough': 150000}
 BUDGET = {'quick': 150, 'thorough': 300}
-REQUIRE = {'trace_transitions': 5000, 'trace_non_transitions': 5000, 'trace_ring_crossed': 1, 'clear_trace_calls': 100, 'subscribe_meta_steps': 60, 'publish_meta_steps': 40, 'runs_stepping_while_signals_are_registered': 150}
+REQUIRE = {'trace_transitions': 5000, 'trace_non_transitions': 5000, 'trace_ring_crossed': 1, 'clear_trace_calls': 100, 'subscribe_meta_steps': 60, 'publish_meta_steps': 40, 'runs_stepping_while_signals_are_registered': 83}
 ANNOUNCE_CASES = True
 ASSUME = ['steps stay below the 250-tuple per-step ring']
 
